@@ -42,6 +42,8 @@ def make_value(tok, kind):
     if kind == "df":
         if tok % 4 == 3:
             return pd.DataFrame({"a": pd.Series([], dtype="int64"), "b": pd.Series([], dtype="float64")})
+        if tok % 4 == 1:
+            return pd.DataFrame({"c": [float(tok), tok + 0.5]})      # ONE column: what squeeze("columns") turns into a Series
         return pd.DataFrame({"a": [tok, tok + 1], "b": [1.5, float(tok)]})
     if kind == "series":
         if tok % 4 == 3:
